@@ -256,8 +256,13 @@ class SimPeripherals:
 
     def _call_real(self, name, args):
         import builtins
+        mm = qb()['machine_mod']
         saved = builtins.input
+        saved_fs = (mm.os, mm.__dict__.get('open'))
         builtins.input = self._stdin_readline
+        # the real peripherals must never touch the real file system
+        mm.os = _FakeOs(self)
+        mm.open = self._fake_open
         try:
             return getattr(self._real, name)(*args)
         except AttributeError as e:
@@ -269,6 +274,25 @@ class SimPeripherals:
             raise
         finally:
             builtins.input = saved
+            mm.os = saved_fs[0]
+            if saved_fs[1] is None:
+                mm.__dict__.pop('open', None)
+            else:
+                mm.open = saved_fs[1]
+
+    def _fake_open(self, path, mode='r', *a, **k):
+        """In-memory file system of the simulated disk."""
+        import io as _io
+        files = self._script.setdefault('files', {})
+        self.history.append(['<fs-open>', str(path), mode])
+        self.origins.append(self._sim.cur_io)
+        if 'r' in mode:
+            if path not in files:
+                raise FileNotFoundError(2, 'No such file or directory', path)
+            data = files[path]
+            return _io.BytesIO(data) if 'b' in mode else _io.StringIO(data.decode('latin-1'))
+        buf = _io.BytesIO() if 'b' in mode else _io.StringIO()
+        return buf
 
     def _stdin_readline(self, prompt=''):
         """What input() does on the simulated stdin."""
@@ -326,6 +350,23 @@ class SimPeripherals:
         v = p[self._n_peek % len(p)]
         self._n_peek += 1
         return v
+
+
+class _FakeOs:
+    """Stand-in for the `os` module inside qvm.machine (only unlink is used)."""
+
+    def __init__(self, impl):
+        self._impl = impl
+        import os as _os
+        self.path = _os.path
+
+    def unlink(self, path):
+        files = self._impl._script.setdefault('files', {})
+        self._impl.history.append(['<fs-unlink>', str(path)])
+        self._impl.origins.append(self._impl._sim.cur_io)
+        if path not in files:
+            raise FileNotFoundError(2, 'No such file or directory', path)
+        del files[path]
 
 
 def _plain(v):
